@@ -28,8 +28,15 @@ type Container struct {
 	doNotRecover           bool // default is true
 	recoverHandleFunc      RecoverHandleFunction
 	serviceErrorHandleFunc ServiceErrorHandleFunction
-	router                 RouteSelector // default is a CurlyRouter (RouterJSR311 is a slower alternative)
-	contentEncodingEnabled bool          // default is false
+	router                 RouteSelector  // default is a CurlyRouter (RouterJSR311 is a slower alternative)
+	contentEncodingEnabled bool           // default is false
+	plainHandlers          []plainHandler // registered using Handle ; needed when the ServeMux is rebuilt
+}
+
+// plainHandler remembers a http.Handler that was registered using Handle.
+type plainHandler struct {
+	pattern string
+	handler http.Handler
 }
 
 // NewContainer creates a new Container using a new ServeMux and default router (CurlyRouter)
@@ -165,6 +172,10 @@ func (c *Container) Remove(ws *WebService) error {
 			}
 			newServices = append(newServices, each)
 		}
+	}
+	// keep the handlers that were registered using Handle
+	for _, each := range c.plainHandlers {
+		c.handle(newServeMux, each.pattern, each.handler)
 	}
 	c.webServices, c.ServeMux, c.isRegisteredOnRoot = newServices, newServeMux, newIsRegisteredOnRoot
 	return nil
@@ -356,7 +367,16 @@ func (c *Container) ServeHTTP(httpWriter http.ResponseWriter, httpRequest *http.
 
 // Handle registers the handler for the given pattern. If a handler already exists for pattern, Handle panics.
 func (c *Container) Handle(pattern string, handler http.Handler) {
-	c.ServeMux.Handle(pattern, http.HandlerFunc(func(httpWriter http.ResponseWriter, httpRequest *http.Request) {
+	c.webServicesLock.Lock()
+	defer c.webServicesLock.Unlock()
+	c.handle(c.ServeMux, pattern, handler)
+	c.plainHandlers = append(c.plainHandlers, plainHandler{pattern, handler})
+}
+
+// handle registers the handler for the given pattern on the serveMux.
+// this function must run inside the critical region protected by the webServicesLock.
+func (c *Container) handle(serveMux *http.ServeMux, pattern string, handler http.Handler) {
+	serveMux.Handle(pattern, http.HandlerFunc(func(httpWriter http.ResponseWriter, httpRequest *http.Request) {
 		// Skip, if httpWriter is already an CompressingResponseWriter
 		if _, ok := httpWriter.(*CompressingResponseWriter); ok {
 			handler.ServeHTTP(httpWriter, httpRequest)
